@@ -39,6 +39,7 @@ type c14Case struct {
 	Proto   string   `json:"proto"`
 	Conns   int      `json:"conns"`   // simple: connections; nats/http: concurrent senders
 	Workers int      `json:"workers"` // nats
+	WatermarkMs int `json:"watermark_ms,omitempty"` // nats: WithHighWatermark (a logging threshold); 0 = default
 	// Chunk > 0 (simple server): request frames reach the socket in pieces of that many bytes
 	Chunk int      `json:"chunk,omitempty"`
 	Reqs  []c14Req `json:"reqs"`
@@ -54,6 +55,7 @@ func genC14(t *rapid.T) c14Case {
 	c.Proto = rapid.SampledFrom([]string{"binary", "compact", "json"}).Draw(t, "proto")
 	c.Conns = rapid.IntRange(1, 4).Draw(t, "conns")
 	c.Workers = rapid.IntRange(1, 4).Draw(t, "workers")
+	c.WatermarkMs = rapid.SampledFrom([]int{0, 0, 1, 1, 20}).Draw(t, "watermark")
 	n := rapid.IntRange(1, 30).Draw(t, "n")
 	for i := 0; i < n; i++ {
 		c.Reqs = append(c.Reqs, c14Req{Kind: rapid.SampledFrom(c14Kinds).Draw(t, "kind"), Conn: rapid.IntRange(0, c.Conns-1).Draw(t, "conn")})
@@ -560,7 +562,11 @@ func execC14Inner(c c14Case) *ev.Failure {
 		defer raw.Close()
 		subj := fmt.Sprintf("c14.svc.%d", uniq64())
 		inbox := fmt.Sprintf("c14.inbox.%d", uniq64())
-		srv := frugal.NewFNatsServerBuilder(sconn, proc, pf, []string{subj}).WithWorkerCount(uint(c.Workers)).Build()
+		sb := frugal.NewFNatsServerBuilder(sconn, proc, pf, []string{subj}).WithWorkerCount(uint(c.Workers))
+		if c.WatermarkMs > 0 {
+			sb = sb.WithHighWatermark(time.Duration(c.WatermarkMs) * time.Millisecond)
+		}
+		srv := sb.Build()
 		served := make(chan error, 1)
 		go func() { served <- srv.Serve() }()
 		awaitSubscribed(sconn)
